@@ -63,6 +63,9 @@ fn se_elem(sh: Shape, op: El) {
     let in_q = has(&s, &q);
     let in_x = has(&s, &x);
     let n = s.len();
+    let l0 = old_len(s.verif_map());
+    let main_len0 = s.verif_map().verif_parts().0.len();
+    reset_counters();
     let mut want_x = in_x;
     let mut wipe = false;
     assert!(s.contains(&x) == in_x, "[C13] contains() wrong");
@@ -144,6 +147,10 @@ fn se_elem(sh: Shape, op: El) {
     assert!(s.contains(&q) == want_q, "[C13] contains() disagrees with the reference set after the operation");
     let dn = if wipe { 0 } else { n + if want_x && !in_x { 1 } else { 0 } - if !want_x && in_x { 1 } else { 0 } };
     assert!(s.len() == dn && s.is_empty() == (dn == 0), "[C13] len()/is_empty() differ from the reference set's");
+    if want_x && !in_x && !matches!(op, El::Extend1) {
+        // one element added by a single call (extend reserves first and may move everything)
+        post_progress(s.verif_map(), l0, main_len0);
+    }
     post_inv(s.verif_map(), &sq);
     kani::cover!(in_x, "cls: element present");
     kani::cover!(!in_x, "cls: element absent");
